@@ -11,3 +11,4 @@ Check C09_sort_permutes : forall l, Permutation.Permutation l (sort_elems l).
 Check C09_init : forall p buf, wf_params p -> layout_ok p buf -> capacity_of p buf < USIZE_LIMIT -> exists buf' pad rest, init p buf = (buf', Ok (0, capacity_of p buf)) /\ Rep p buf' (capacity_of p buf) [] pad rest /\ length buf' = length buf.
 Check C09_size_of : forall p n s buf, size_of p n = Ok s -> szT p <> 0 -> len buf = s -> capacity_of p buf = n /\ data_start p <= len buf /\ data_len p buf mod szT p = 0.
 Check C09_size_formula : forall p n s, size_of p n = Ok s -> s = szL p + header_padding p + szT p * n.
+Check C09_bytes_used_allocated : forall p buf cap xs pad rest, Rep p buf cap xs pad rest -> bytes_used p buf = size_of p (len xs) /\ bytes_allocated p buf = size_of p cap.
